@@ -121,6 +121,48 @@ fn exec<T: Tbl>(ctx: &mut Ctx, ev: &Ev, local: &mut Local) {
                 _ => ctx.violate("terminates-normally", ev, gname, format!("{}_canonization panicked (n={})", gname, n)),
             }
         }
+        "directed" => {
+            // the representative r of f, moved by ONE kind of group action applied by the model, must come
+            // back to r: the walk then has to find the minimum at very particular steps (first / last step of
+            // a flip round, a pure permutation, only the output complement)
+            let kind = ev.i(0);
+            let kname = ["pure-permutation", "pure-transposition", "pure-input-flip", "pure-input-flips", "pure-output-complement"][kind];
+            ctx.event(&format!("directed|{}|{}|{}|n={}", kname, gname, T::ty(), n), ev, mf.nontrivial());
+            let r = match call_canon(g, &f) {
+                Outcome::Returned(o) => o.repr,
+                Outcome::Panicked(m) => {
+                    ctx.violate("terminates-normally", ev, gname, format!("{}_canonization panicked (n={}): {}", gname, n, m));
+                    return;
+                }
+            };
+            let mr = Model::from_blocks(n, r.t_blocks());
+            let mut rng = Rng::new(ev.ints[1]);
+            let id: Vec<usize> = (0..n).collect();
+            let image = match kind {
+                0 => {
+                    let mut p = id.clone();
+                    rng.shuffle(&mut p);
+                    mr.apply_npn(&p, 0, false)
+                }
+                1 => mr.swap(rng.below(n), rng.below(n)),
+                2 => mr.flip(rng.below(n)),
+                3 => mr.apply_npn(&id, rng.below(1 << n), false),
+                _ => mr.not(),
+            };
+            let gi: T = match realize(ctx, ev, n, &image.to_blocks()) {
+                Some(x) => x,
+                None => return,
+            };
+            match call_canon(g, &gi) {
+                Outcome::Returned(o) => {
+                    ctx.check("class-invariant", o.repr == r, ev, &format!("{}:{}", gname, kname), || {
+                        format!("the {} representative {} moved by a {} ({}) canonizes to {} instead of back to itself",
+                            gname, hex_of_blocks(r.t_blocks()), kname, hex_of_blocks(&image.to_blocks()), hex_of_blocks(o.repr.t_blocks()))
+                    });
+                }
+                Outcome::Panicked(m) => ctx.violate("terminates-normally", ev, gname, format!("{}_canonization panicked (n={}): {}", gname, n, m)),
+            }
+        }
         other => panic!("harness: unknown op {}", other),
     }
 }
@@ -158,8 +200,8 @@ fn meta_event(ty: &str, n: usize, g: Group, f: &[u64], rng: &mut Rng) -> Ev {
 fn budget(g: Group, n: usize, thorough: bool) -> usize {
     let q = match (g, n) {
         (_, 5) => 400,
-        (Group::Npn, 6) => 60,
-        (Group::Npn, 7) => 6,
+        (Group::Npn, 6) => 120,
+        (Group::Npn, 7) => 16,
         (Group::Npn, 8) => 2,
         (Group::P, 6) => 200,
         (Group::P, 7) => 60,
@@ -245,6 +287,18 @@ fn main() {
                 let (_, f) = gen::any_fam(n, &mut rng);
                 both(ctx, &mut local, n, |ty| meta_event(ty, n, g, &f, &mut rng.clone()));
                 rng.next_u64();
+                // directed images of the representative (kinds that make sense for the group)
+                let f2 = gen::random_blocks(n, &mut rng);
+                for kind in 0..5usize {
+                    let applies = match kind {
+                        0 | 1 => g != Group::N && n >= 2,
+                        _ => g != Group::P && n >= 1,
+                    };
+                    if applies {
+                        let s2 = rng.next_u64();
+                        both(ctx, &mut local, n, |ty| Ev::new("directed", ty, n).st(g.name()).tab(&f2).int(kind).int64(s2));
+                    }
+                }
             }
         }
     });
